@@ -423,6 +423,7 @@ func (vc *FnVC) entryEnv() *Env {
 func (vc *FnVC) curEnv() *Env {
 	env := vc.entryEnv()
 	env.heap = func(comp, sort string) string { return vc.heapGet(comp, sort) }
+	env.cellHook = func(comp, sort, ref string) string { return vc.readCell(comp, sort, ref) }
 	return env
 }
 
@@ -697,6 +698,46 @@ func (vc *FnVC) translateBlock(b *ssa.BasicBlock) {
 		vc.curReach = rn
 		vc.curHeap = vc.mergeHeaps(b, fwdPreds)
 	}
+	// cell cache: inherited only along a unique forward edge into a non-loop-header block
+	vc.cellCache = map[string]string{}
+	if li == nil && len(fwdPreds) == len(b.Preds) && len(fwdPreds) > 0 {
+		// keep what every predecessor agrees on (dead predecessors are ignored)
+		var live []*ssa.BasicBlock
+		for _, p := range fwdPreds {
+			if e, ok := vc.edgeCond[[2]*ssa.BasicBlock{p, b}]; ok && e != "false" && vc.reach[p] != "false" {
+				live = append(live, p)
+			}
+		}
+		if len(live) > 0 {
+			for k, v := range vc.cellCacheOut[live[0]] {
+				same := true
+				for _, p := range live[1:] {
+					if vc.cellCacheOut[p][k] != v {
+						same = false
+						break
+					}
+				}
+				if same {
+					vc.cellCache[k] = v
+					continue
+				}
+				// cached in every predecessor with different values: merge explicitly
+				all := true
+				for _, p := range live[1:] {
+					if _, ok := vc.cellCacheOut[p][k]; !ok {
+						all = false
+					}
+				}
+				if all {
+					m := vc.freshConst("cellm", "Int")
+					for _, p := range live {
+						vc.fact(fmt.Sprintf("(=> %s (= %s %s))", vc.edgeCond[[2]*ssa.BasicBlock{p, b}], m, vc.cellCacheOut[p][k]))
+					}
+					vc.cellCache[k] = m
+				}
+			}
+		}
+	}
 	// phis (non-loop-header): per-edge equalities
 	if li == nil {
 		for _, in := range b.Instrs {
@@ -725,6 +766,10 @@ func (vc *FnVC) translateBlock(b *ssa.BasicBlock) {
 		vc.instr(in, idx)
 	}
 	vc.heapOut[b] = vc.curHeap
+	if vc.cellCacheOut == nil {
+		vc.cellCacheOut = map[*ssa.BasicBlock]map[string]string{}
+	}
+	vc.cellCacheOut[b] = vc.cellCache
 }
 
 func (vc *FnVC) mergeHeaps(b *ssa.BasicBlock, preds []*ssa.BasicBlock) map[string]string {
